@@ -126,6 +126,10 @@ class Facts:
             d = json.load(f)
         from .canon import canonicalise
         d, self.renamed = canonicalise(d)
+        from .inline import inline_new_functions
+        d, self.inlined = inline_new_functions(d)
+        from .inline import desugar_combinators, thread_known_variants
+        d, self.desugared = desugar_combinators(d)
         self.raw = d
         self.meta = d["meta"]
         self.bodies = {}
